@@ -27,6 +27,7 @@ def tables : List (String → List String → Option String) := []
   ++ [Drv.Lib2.table]
   ++ [Drv.codecsGenV1Table]
   ++ [Drv.beatgridGenTable]
+  ++ [Drv.Cv.table]
 
 /-- Stateful groups, selected by a first line `#mode <name>`. -/
 def modes : List Mode := []
